@@ -1244,6 +1244,210 @@ def run_sugar_declines(ctx):
         ctx.case(sample={"stream": "sugar-declines", "expr": gen_terms.python_of(recipe)[:200]})
 
 
+# ---- plain-Python indexing x[index] of an eager Tensor (eager_getslice_tensor), enumerated -------------
+
+def _gs_items(n, small):
+    """Per-axis basic-index items for an event axis of size n: full, full-extent reversals (implicit and explicit
+    bounds), partial negative steps, negative strides, positive strides, partial ranges, ints of both signs."""
+    if small:
+        return [("s",), ("sl", None, None, -1), ("sl", None, None, 2), ("sl", n - 1, 0, -1), ("sl", 1, None, 1),
+                ("i", -1)]
+    items = [("s",), ("sl", 0, n, 1), ("sl", None, None, -1), ("sl", n - 1, None, -1), ("sl", -1, -n - 1, -1),
+             ("sl", None, None, -2), ("sl", n - 1, 0, -1), ("sl", None, 0, -1), ("sl", None, None, 2),
+             ("sl", 1, None, 1), ("sl", None, -1, 1), ("sl", 1, None, 2), ("i", 0), ("i", -1)]
+    if n >= 3:
+        items += [("sl", n - 2, None, -1), ("sl", None, None, -(n - 1)), ("sl", None, None, n - 1), ("i", 1)]
+    return items
+
+
+def _gs_keeps_extent(it):
+    return it[0] == "s" or (it[0] == "sl" and it[3] in (1, -1))
+
+
+def run_getslice_grid(ctx):
+    """eager_getslice_tensor on the whole neighbourhood of basic indices, incl. every SHAPE-PRESERVING index that is
+    not the identity (full-extent negative-step slices x[::-1], x[:, ::-1], x[..., ::-1], x[n-1::-1], x[-1:-n-1:-1]),
+    partial negative steps, negative strides, positive strides, ints of both signs, None and Ellipsis at the
+    head / middle / tail; on Tensors with 0-2 named inputs (both input orders), real and integer dtype; chained on
+    an already sliced / eagerly computed tensor (x[1:][::-1], (x+x)[::-1], x[::-1][::-1]) and consumed downstream
+    (x[::-1] - x, x[::-1].reduce over a named input, sum over the event axis of x[::-1][:k]).
+    Oracle: the statement itself — at every point p of the named inputs the result is numpy's data[p][index]
+    (`py_eval`), shape and contents compared exactly.  Gate: decline (counted) or equal."""
+    rng = ctx.rng
+    quick = ctx.tier == "quick"
+    recipes = []
+    shapes = [(3,), (4,), (1,), (2, 3), (3, 2), (1, 3), (3, 3), (2, 3, 2)]
+    batches = [(), (("i", 2),), (("i", 2), ("j", 3)), (("j", 3), ("i", 2)), (("i", 1),)]
+    for shape in shapes:
+        rank = len(shape)
+        for ins in batches:
+            full = tuple(s_ for _, s_ in ins) + shape
+            tens = []
+            data = np.array([rng.choice([-3, -2, -1, 0, 1, 2, 3, 4, 5, 7]) + 0.25 * rng.randrange(4)
+                             for _ in range(int(np.prod(full)))], dtype=np.float64).reshape(full)
+            tens.append(("tensor", ins, "real", shape, data))
+            if rank <= 2:
+                idata = np.array([rng.randrange(5) for _ in range(int(np.prod(full)))], dtype=np.int64).reshape(full)
+                tens.append(("tensor", ins, 5, shape, idata))
+            per_axis = [_gs_items(n, rank >= 3 or (quick and rank == 2 and len(ins) == 2)) for n in shape]
+            indices = []
+            for k in range(1, rank + 1):
+                for combo in itertools.product(*per_axis[:k]):
+                    indices.append(tuple(combo))
+                    if k < rank:
+                        indices.append(tuple(combo) + (("e",),))
+            # Ellipsis first: items address the TRAILING axes
+            for k in range(0, rank + 1):
+                for combo in itertools.product(*per_axis[rank - k:]):
+                    indices.append((("e",),) + tuple(combo))
+            # Ellipsis in the middle
+            if rank >= 2:
+                for a_ in per_axis[0]:
+                    for b_ in per_axis[-1]:
+                        indices.append((a_, ("e",), b_))
+            # None (new axis) at the head / after the first item / at the tail
+            for a_ in per_axis[0]:
+                indices.append((("none",), a_))
+                indices.append((a_, ("none",)))
+                indices.append((("e",), ("none",), a_) if rank == 1 else (a_, ("none",), per_axis[1][2]))
+                indices.append((("e",), a_, ("none",)) if rank == 1 else (("none",), ("e",), per_axis[-1][2]))
+            for t in tens:
+                for index in indices:
+                    if t[2] != "real" and quick_skip(rng, ctx):
+                        continue
+                    recipes.append((("getsugar", t, index), "plain"))
+            # compositions / downstream consumers of the shape-preserving non-identity indices
+            t = tens[0]
+            R = ("sl", None, None, -1)
+            S = ("s",)
+            n0 = shape[0]
+            for index in [(R,), (("e",), R), (S,) * (rank - 1) + (R,), (R,) * rank]:
+                g = ("getsugar", t, index)
+                recipes.append((("getsugar", g, index), "chain"))                                  # x[::-1][::-1]
+                recipes.append((("getsugar", ("getsugar", t, (("sl", 0, n0, 1),)), index), "chain"))
+                recipes.append((("getsugar", ("binary", "add", t, t), index), "chain"))            # eager operand
+                recipes.append((("binary", "sub", g, t), "downstream"))                            # x[::-1] - x
+                for nm, _ in ins:
+                    recipes.append((("reduce", "add", g, (nm,), ()), "downstream"))
+                for k in range(1, n0 + 1):
+                    recipes.append((("red", "sum", 0, False, ("getsugar", g, (("sl", 0, k, 1),))), "downstream"))
+            if n0 >= 2:
+                recipes.append((("getsugar", ("getsugar", t, (("sl", 1, None, 1),)), (R,)), "chain"))  # x[1:][::-1]
+                recipes.append((("getsugar", ("getsugar", t, (R,)), (("sl", 1, None, 1),)), "chain"))
+                recipes.append((("getsugar", ("getsugar", t, (("sl", None, None, -1),)), (("i", 0),)), "chain"))
+    ctx.count("getslice-grid:enumerated", len(recipes))
+    # -- Lean model of signed Python slices (Model/C01Slice `slicePositions`, Props/C01/Slice.lean) ------------------
+    # (a) the model is CPython's rule: exhaustive comparison with range(*slice(a, b, c).indices(n)) on a box
+    box = []
+    for n in range(0, 6):
+        bounds = [None] + list(range(-n - 2, n + 3))
+        for a_ in bounds:
+            for b_ in bounds:
+                for c_ in (-3, -2, -1, 0, 1, 2, 3):
+                    box.append((n, a_, b_, c_))
+    fmt = lambda v: "none" if v is None else str(v)
+    answers = ctx.driver.ask([f"C01 pyslice {n} {fmt(a_)} {fmt(b_)} {c_}" for n, a_, b_, c_ in box])
+    lean_pos = {}
+    for key, ans in zip(box, answers):
+        n, a_, b_, c_ = key
+        want = None if c_ == 0 else list(range(*slice(a_, b_, c_).indices(n)))
+        got = None if ans.strip() == "ok none" else ([int(x) for x in parse_sx(ans[3:])] if ans.startswith("ok ") else "err")
+        if got != want:
+            ctx.infra_errors.append(f"slicePositions model != CPython slice.indices at {key}: {ans[:80]} vs {want}")
+        lean_pos[key] = got
+        ctx.count("getslice-grid:lean-slicePositions-vs-cpython")
+    ctx.case(sample={"stream": "getslice-grid", "what": f"slicePositions = range(*slice.indices(n)) on {len(box)} (n,start,stop,step)"})
+
+    def lean_expected(recipe, ins):
+        """(b) For x[sl] / x[..., sl] with ONE slice item: the table read off the tensor's data at Lean's positions."""
+        t, index = recipe[1], recipe[2]
+        if t[0] != "tensor":
+            return None
+        items = [it for it in index if it[0] != "e"]
+        if len(items) != 1 or items[0][0] not in ("s", "sl") or sum(1 for it in index if it[0] == "e") > 1:
+            return None
+        lead_e = index[0][0] == "e"
+        axis = len(t[3]) - 1 if lead_e else 0
+        it = items[0]
+        key = (t[3][axis], None, None, 1) if it[0] == "s" else (t[3][axis], it[1], it[2], it[3])
+        pos = lean_pos.get(key)
+        if not isinstance(pos, list):
+            return None
+        out = []
+        order = [n for n, _ in t[1]]
+        for p_ in itertools.product(*[range(s_) for _, s_ in ins]):
+            pt = dict(zip([n for n, _ in ins], p_))
+            row = np.asarray(t[4], dtype=float)[tuple(pt[n] for n in order)]
+            v = np.take(row, pos, axis=axis) if pos else np.take(row, np.array([], dtype=int), axis=axis)
+            out.append((list(v.shape), [futil.exact(x) for x in v.reshape(-1)]))
+        return out
+
+    for recipe, kind in recipes:
+        ins = sorted(_ins_of_tensor_leaves(recipe))
+        st, val = evaluate(recipe)
+        if st != "value":
+            ctx.count(f"getslice-grid:declined:{val.split(':')[0]}")
+            ctx.case()
+            continue
+        if not isinstance(val, (Tensor, Number)):
+            ctx.count("getslice-grid:lazy")
+            ctx.case()
+            continue
+        try:
+            want = py_table(recipe, ins, {})
+        except IndexError:
+            ctx.infra_errors.append(f"getslice-grid: funsor accepted an index numpy rejects: {gen_terms.describe(recipe)}")
+            continue
+        try:
+            got = ser.impl_values(val, ins)
+            ok = ser.tables_equal(got, want)[0]
+            err = None
+        except (KeyError, ValueError) as e:
+            ok, err, got = False, str(e), None
+        if ok and kind == "plain":
+            lw = lean_expected(recipe, ins)
+            if lw is not None:
+                ctx.count("getslice-grid:lean-positions-oracle")
+                if not ser.tables_equal(got, lw)[0]:
+                    ok, err = False, "differs from the tensor's data read at Model/C01Slice.slicePositions"
+        root = recipe if recipe[0] == "getsugar" else None
+        if root is not None and kind == "plain":
+            index = root[2]
+            sl = [it for it in index if it[0] in ("s", "sl")]
+            neg = any(it[0] == "sl" and it[3] < 0 for it in index)
+            keeps = bool(want) and list(want[0][0]) == list(root[1][3])
+            ctx.count("getslice-grid:" + ("shape-preserving" if keeps else "shape-changing") + (":neg-step" if neg else ""))
+            if any(it[0] == "e" for it in index):
+                ctx.count("getslice-grid:with-ellipsis")
+            if any(it[0] == "none" for it in index):
+                ctx.count("getslice-grid:with-none")
+        else:
+            ctx.count(f"getslice-grid:{kind}")
+        ctx.count(f"getslice-grid:inputs={len(ins)}")
+        if not ok:
+            wtab = [(c_[0], [float(x) for x in c_[1]]) for c_ in want]
+            ctx.fail("input", "C01.getslice-ne-numpy", witness=gen_terms.describe(recipe),
+                     expected=("numpy data[p][index] at every named point p: " + str(wtab))[:600],
+                     got=(err or str([(c_[0], [float(x) for x in c_[1]]) for c_ in got]))[:600],
+                     python=replay_python(recipe, None, wtab, ins))
+            continue
+        ctx.case(sample={"stream": "getslice-grid", "expr": gen_terms.python_of(recipe)[:200]},
+                 nontrivial_key=("getslice-grid", gen_terms.python_of(recipe)) if (ins or kind != "plain") else None)
+
+
+def _ins_of_tensor_leaves(r):
+    out = set()
+    if isinstance(r, tuple):
+        if r and r[0] == "tensor":
+            return set((n, int(s_)) for n, s_ in r[1])
+        if r and r[0] == "reduce":
+            return _ins_of_tensor_leaves(r[2]) - set(p for p in _ins_of_tensor_leaves(r[2]) if p[0] in r[3])
+        for x in r:
+            if isinstance(x, tuple):
+                out |= _ins_of_tensor_leaves(x)
+    return out
+
+
 def run_finstack(ctx):
     """eager_finitary_stack at EVERY dim (Model/C01Fin.lean `finStack`, Props/C01/FinStack.lean `finStack_sem`):
     2-3 Tensor/Number parts with the same inputs in random relative orders (or, 25%, different input sets: the rule
@@ -1518,6 +1722,9 @@ def correspond(ctx):
         "ops.stack/cat, einsum, output-axis reductions with axis/keepdims, reshape, getslice, broadcasting; comparisons "
         "and boolean ops; getitem by number/variable/tensor); lazy = real-valued free inputs bound at dyadic points and "
         "Independent; exh (thorough) = all expressions of depth <= 2 over {i:2,j:2,k:3} from a fixed pool of 6 leaves. "
+        "getslice-grid = enumerated plain indices x[index] on eager Tensors (every per-axis combination of full / "
+        "full-extent-reversed / partial-negative-step / strided slices, ints, None, Ellipsis; 0-2 named inputs; chained and "
+        "consumed downstream) against numpy data[p][index] and Model/C01Slice.slicePositions. "
         "Every case is decided on its whole input space against Lean `denote`; peval (the NT model) is echoed against "
         "denote; completeness is gated on the core fragment. Non-trivial = >= 3 constructors and a Tensor result with "
         ">= 1 input or event dim; distinct by full content.")
@@ -1535,6 +1742,7 @@ def correspond(ctx):
     run_cases(ctx, stream_getitem_enum(ctx))
     run_cases(ctx, stream_binary_orders(ctx))
     run_sugar_declines(ctx)
+    run_getslice_grid(ctx)
     run_phi(ctx, 400 if quick else 8000)
     run_outred(ctx, quick)
     run_named_agg(ctx, quick)
